@@ -29,13 +29,23 @@ def make_copy(repo):
 
 def apply_mutant(copy, mut):
     """textual single-site substitution; returns True when it applied"""
-    edits = mut.get("edits") or [{"file": mut["file"], "old": mut["old"], "new": mut["new"]}]
+    edits = mut.get("edits") or [{"file": mut["file"], "old": mut["old"], "new": mut["new"], "after": mut.get("after")}]
     staged = {}
     for e in edits:
         path = os.path.join(copy, e["file"])
         if not os.path.exists(path):
             return False
         txt = staged[path] if path in staged else open(path).read()
+        if e.get("after"):
+            # first occurrence of `old` after a unique anchor (e.g. the enclosing fn header)
+            if txt.count(e["after"]) != 1:
+                return False
+            a = txt.index(e["after"])
+            i = txt.find(e["old"], a)
+            if i < 0:
+                return False
+            staged[path] = txt[:i] + e["new"] + txt[i + len(e["old"]):]
+            continue
         if txt.count(e["old"]) != 1:
             return False
         staged[path] = txt.replace(e["old"], e["new"])
